@@ -43,7 +43,7 @@ def body_of(db, pred):
 
 
 def own(r):
-    return [e for e in r.events if len(e.stack) == 1]
+    return [e for e in r.events if e.is_own()]
 
 
 def leq(a, b):
@@ -140,16 +140,16 @@ def check(ctx, config, rule):
         bad = []
         if cp and sl:
             g = I.cfg(b)
-            cb = cp[0].block
+            cb = cp[0].top_block()
             for e in ev:
                 if e.kind != 'branch':
                     continue
                 tgt = e.extra['target']
                 # an edge that leaves the path to the copy but still reaches set_len
                 reach = g.reach([tgt])
-                if cb in reach or sl[0].block not in reach:
+                if cb in reach or sl[0].top_block() not in reach:
                     continue
-                if not g.can_reach(e.block, cb):
+                if not g.can_reach(e.top_block(), cb):
                     continue
                 fs = [tuple(fold(x) if isinstance(x, tuple) else x for x in f) for f in e.extra['added']]
                 okf = any(f in (('le', OLD, IDX), ('eq', OLD, IDX), ('eq', IDX, OLD), ('le', DEL, C(0)), ('eq', DEL, C(0)), ('eq', C(0), DEL)) for f in fs)
